@@ -796,6 +796,9 @@ func (d *DataRow) MatchFilter(filter *Filter, negate bool) bool {
 			regexp:      filter.regexp,
 			isEmpty:     filter.isEmpty,
 			customTag:   filter.customTag,
+			intValue:    filter.intValue,
+			int64Value:  filter.int64Value,
+			floatValue:  filter.floatValue,
 			negate:      negate,
 			columnIndex: -1,
 		}
